@@ -135,6 +135,13 @@ def gen(rng, tier):
         nfail = rng.choice([0, 0, 1, 2])
         subs[str(s)] = {"script": [rng.choice(["ErrA", "ErrB"]) for _ in range(nfail)] + ["ok"],
                         "dur": rng.choice([0, 0.05, 0.1, 0.2])}
+    if nsubs >= 2 and rng.random() < 0.2:
+        # re-entrant cancel: a callable cancels an earlier submission of the same executor (with a
+        # sync base this runs on the library's own hand-over thread, inside its critical section)
+        k = rng.randrange(1, nsubs)
+        subs[str(k)]["cancel_sibling"] = rng.randrange(k)
+        if rng.random() < 0.6:
+            base["kind"] = "sync"
     spec = {"mode": mode, "base": base, "layers": layers, "subs": subs,
             "aux": any(L["t"] == "flat_map" and "aux" in json.dumps(L.get("fn")) for L in layers)}
     if mode == "A":
